@@ -668,6 +668,20 @@ func init() {
 			}
 		}
 	}, "q2_retransmission_seen", "q2_duplicate_completed", "identifier_reused")})
+	// process stops between delivery, reception record and PUBREC; the broker
+	// retransmits to the next incarnation
+	register("C04", Family{Name: "restarts", Weight: 1, Run: flowFamily(func(f *Flow) {
+		restartTune(-1)(f)
+		o := &f.O
+		o.Generations = 2 + f.W.Tape.Draw("gens4r", 2)
+		o.StopW = 2
+		o.FaultFreeAfterStop = false
+		o.Publishers = f.W.Tape.Draw("npub4r", 2)
+		o.Inbound = 2 + f.W.Tape.Draw("nin4r", 6)
+		o.InQ = [3]int{0, 1, 6}
+		o.BreakW = 1 + f.W.Tape.Draw("breakw4r", 3)
+		o.Budget = 3 + f.W.Tape.Draw("budget4r", 4)
+	}, "q2_retransmission_seen", "resumed_after_restart")})
 	register("C06", Family{Name: "fragments", Weight: 1, Run: flowFamily(func(f *Flow) {
 		o := &f.O
 		f.StrictInbound = true
@@ -704,6 +718,15 @@ func init() {
 		o.InSizeMix = [4]int{3, 3, 3, 1}
 		o.BreakW = 2 + f.W.Tape.Draw("breakw6r", 3)
 		o.Budget += 4
+		if f.W.Tape.Flip("saveerr6r", 400) {
+			// a failing reception-record Save: ReadSlices reports the
+			// error and keeps the connection; the stream must stay
+			// aligned over the retry
+			o.Disk.ErrBefore = 200
+			o.Disk.ErrOnly = "S"
+			o.BreakW = f.W.Tape.Draw("breakw6s", 2)
+			o.Linger = 200 + f.W.Tape.Draw("linger6s", 400)
+		}
 	}, "duplicate_suppressed", "big_duplicate_suppressed", "return_matches_stream")})
 	register("C07", Family{Name: "inbound", Weight: 1, Run: flowFamily(func(f *Flow) {
 		f.O.Inbound = 1 + f.W.Tape.Draw("nin7", 10)
